@@ -72,6 +72,7 @@ pub fn stack_cfg(property: &str) -> StackCfg {
     };
     match property {
         "C03" => {}
+        "C02" => c.w = [60, 12, 0, 0, 10, 6, 4, 0, 0, 0, 0, 0],
         "C08" => {
             c.w = [55, 8, 2, 1, 2, 1, 1, 16, 2, 2, 3, 1];
             c.cost = true;
